@@ -1192,6 +1192,12 @@ func (w *responseWriter) writeHeader(statusCode int) {
 	if w.headersWritten {
 		return
 	}
+	if statusCode >= 100 && statusCode <= 199 && statusCode != http.StatusSwitchingProtocols {
+		// An informational response (e.g. 103 Early Hints, or what a reverse proxy relays
+		// from its upstream) is not the response: the real one is still to come. It is
+		// not passed on, because its headers are those of the server's protocol.
+		return
+	}
 	w.headersWritten = true
 	w.code = statusCode
 
